@@ -1095,7 +1095,8 @@ class DT(Function):
         self.model = model
 
     def term(self, time="t"):
-        return "{}".format(self.model.dt)
+        # refer to the model's dt instead of copying its current value: the run specs may still change
+        return "model.dt"
 
 
 class Starttime(Function):
@@ -1107,7 +1108,7 @@ class Starttime(Function):
         self.model = model
 
     def term(self, time="t"):
-        return "{}".format(self.model.starttime)
+        return "model.starttime"
 
 
 class Stoptime(Function):
@@ -1119,7 +1120,7 @@ class Stoptime(Function):
         self.model = model
 
     def term(self, time="t"):
-        return "{}".format(self.model.stoptime)
+        return "model.stoptime"
 
 
 class Time(Function):
@@ -1178,9 +1179,9 @@ class Pulse(Function):
 
     def term(self, time="t"):
         if self.interval.element == 0.0:
-            return "(({}/{}) if {}=={} else 0.0)".format(self.volume.term(time), self.model.dt, time, self.first_pulse)
+            return "(({}/{}) if {}=={} else 0.0)".format(self.volume.term(time), "model.dt", time, self.first_pulse)
         else:
-            return "(({volume}/{dt}) if (({time}-{first_pulse}) >= 0 and (({time}-{first_pulse})%({interval}))==0) else 0.0)".format(volume=self.volume.term(time), dt=self.model.dt, time=time, first_pulse=self.first_pulse, interval=self.interval)
+            return "(({volume}/{dt}) if (({time}-{first_pulse}) >= 0 and (({time}-{first_pulse})%({interval}))==0) else 0.0)".format(volume=self.volume.term(time), dt="model.dt", time=time, first_pulse=self.first_pulse, interval=self.interval)
 
 
 class Trend(Function):
@@ -1239,15 +1240,17 @@ class Delay(Function):
             initial_value) if initial_value is not None else initial_value
 
     def term(self, time="t"):
+        # refer to the model's start time instead of copying its current value: the run specs may still change
+        starttime = "model.starttime"
         delayed_time = "{} - {}".format(str(time),
-                                        self.delay_duration.term(str(self.model.starttime)))
+                                        self.delay_duration.term(starttime))
         # the tolerance absorbs float noise in t - duration (0.7-0.2 is 0.49999999999999994, not 0.5)
         return "({} if {}>={}-model.dt*1e-6 else {})".format(
             self.input_function.term(delayed_time),
             delayed_time,
-            str(self.model.starttime),
-            self.initial_value.term(str(self.model.starttime)) if self.initial_value is not None else self.input_function.term(
-                str(self.model.starttime))
+            starttime,
+            self.initial_value.term(starttime) if self.initial_value is not None else self.input_function.term(
+                starttime)
         )
 
 
